@@ -44,6 +44,11 @@ def _diff_reads(value):
 
 
 def run(ctx):
+    from . import C15_kernels as _K
+
+    _K.int_division(ctx, rule="R08.9")  # normalisation by the pair count must be a floating-point division (cdivision=True)
+    _K.accumulator_reset(ctx, rule="R08.9")
+    _K.zero_init(ctx, rule="R08.9")
     from .C09 import ang2dir_rule
 
     ang2dir_rule(ctx, rule="R08.8")  # the search direction built from `angles=` (shared with C09)
